@@ -2,7 +2,7 @@
 algorithms versus spec tables (Elements taproot sighash, BIP143 + issuance, legacy)."""
 import re
 
-from ..analysis import events, is_encode_call, cond_desc, effects, ret_assignments, err_returns
+from ..analysis import drop_error_guards, events, is_encode_call, cond_desc, effects, ret_assignments, err_returns
 from ..mir import Prov, Guards, show, callee_name, walk_term
 
 SC = "sighash::SighashCache::<R>"
@@ -33,7 +33,7 @@ def ev_rows(body, norm, pred=is_encode_call):
     for e in events(body, pred):
         recv = norm(show(e["args"][0], -9))
         sink = norm(show(e["args"][1], -9)) if len(e["args"]) > 1 else None
-        cd = frozenset((norm(d), l) for d, l in cond_desc(body, e["conds"]))
+        cd = frozenset((norm(d), l) for d, l in cond_desc(body, drop_error_guards(body, e["conds"])))
         rows.append((recv, sink, e["self_ty"], cd, e))
     return rows
 
@@ -98,6 +98,10 @@ def _taproot(c, prog):
     n = Norm([("sighash::SchnorrSighashType::split_anyonecanpay_flag(arg7)", "SPLIT"),
               ("sighash::SchnorrSighashType", "T"),
               ("core::slice::get(arg1.tx.input, arg3)", "TXIN"), ("core::slice::get(arg1.tx.output, arg3)", "TXOUT"),
+              # the same element through a guarded `v[i]` (the guard's failing side returns the error; safety of the index is C10's)
+              ("<std::vec::Vec<T, A> as std::ops::Index<I>>::index(arg1.tx.input, arg3)", "TXIN"),
+              ("<std::vec::Vec<T, A> as std::ops::Index<I>>::index(arg1.tx.output, arg3)", "TXOUT"),
+              ("arg1.tx.input[arg3]", "TXIN"), ("arg1.tx.output[arg3]", "TXOUT"),
               ("sighash::Prevouts::get(arg4, arg3)", "PREVOUT"),
               ("sighash::SighashCache::taproot_cache(arg1, sighash::Prevouts::get_all(arg4))", "TAPCACHE"),
               ("sighash::SighashCache::common_cache(arg1)", "COMMON"),
@@ -164,8 +168,11 @@ def _taproot(c, prog):
     e2 = [x for x in errs if "SingleWithoutCorrespondingOutput" in x[1]]
     oks = [e for e in events(b, lambda t: callee_name(t).endswith("Option::<T>::ok_or"))]
     okm = {("IndexOutOfInputsBounds" if "IndexOutOfInputsBounds" in show(e["args"][1]) else "SingleWithoutCorrespondingOutput" if "SingleWithoutCorrespondingOutput" in show(e["args"][1]) else "?"): n(show(e["args"][0])) for e in oks}
+    # either form: `.get(i).ok_or(E)?` on the element, or an explicit `if i >= len { return Err(E) }`
+    have = {k for k in okm if k != "?"} | ({"IndexOutOfInputsBounds"} if e1 else set()) | ({"SingleWithoutCorrespondingOutput"} if e2 else set())
     c.inst("R1.taproot.error-edges", "missing input / missing SINGLE output are errors",
-           okm == {"IndexOutOfInputsBounds": "TXIN", "SingleWithoutCorrespondingOutput": "TXOUT"}, "ok_or sites %s" % okm, f.where(), f.path)
+           have == {"IndexOutOfInputsBounds", "SingleWithoutCorrespondingOutput"} and all(v in ("TXIN", "TXOUT") for v in okm.values()),
+           "ok_or sites %s; explicit error returns %s" % (okm, [x[1][:60] for x in e1 + e2]), f.where(), f.path)
     # KEY_VERSION_0
     kv = prog.const("sighash::KEY_VERSION_0")
     c.inst("R1.taproot.key-version", "KEY_VERSION_0 == 0", kv["val"] in ("0_u8", "0"), "value %s" % kv["val"], f.where(), f.path)
